@@ -90,3 +90,35 @@ PROPS["C09"] = dict(
     real=REAL_SEQ, stub=STUB_SEQ, assumptions=PL_ASSUME,
     must_reach=dict(quick=["ploss-all-pending-lost", "ploss-random-prefixes", "pt:open/create/lock/ploss-all-pending-lost", "pt:end/ploss-all-pending-lost"], thorough=["ploss-all-pending-lost"]),
 )
+
+# ---------------------------------------------------------------------------------------------
+# Texts for MANIFEST.json
+
+def _t(engine, technique, level_text, level_note, design_ref):
+    return dict(engine=engine, technique=technique, level_text=level_text, level_note=level_note, design_ref=design_ref)
+
+TEXT = {
+    "C01": _t("harness", "seeded model-based simulation: single task on SimFS with simulator-chosen hash seed, reference map + structural index walk + independent WAL replay",
+              "Seeded exploration of sequential histories over adversarial key sets (hash collisions engineered through the randomness seam) and segment/compaction settings, every call compared with a reference map. Sampling, not proof; the fault-free single-task configuration of the simulator.",
+              "Trusted: reference map, own murmur3, decoder written from docs/design.md. No faults, no concurrency (degenerate simulator configuration, DESIGN.md section 5).", "DESIGN.md 4/C01, 5"),
+    "C02": _t("harness", "seeded simulation with Close/Open as generated operations; recovery detected at the logger and file-system seams",
+              "Seeded exploration of histories split into sessions at arbitrary positions; after each reopen full comparison with the model, 'no recovery happened' observed at the FS/log seams, persisted index metadata cross-checked by a structural walk.",
+              "Trusted: SimFS semantics, reference map. Cross-FS reopen is covered by C17.", "DESIGN.md 4/C02"),
+    "C03": _t("harness", "deterministic simulation with fault injection: journalled simulated disk, record once / crash at every FS call and every 512-aligned tear, real recovery on each image",
+              "Every crash point (all journal indices and all sector-aligned tears) of thousands of seeded histories is turned into a disk image, recovered by the real Open and read back completely against the exact per-key oracle (acked state, plus all-or-none of the single in-flight call).",
+              "Crash points are enumerated exhaustively within each sampled history (sampled above 400 points); histories are sampled. Process-crash model as stated in the property.", "DESIGN.md 2.3, 4/C03"),
+    "C04": _t("harness", "deterministic simulation with fault injection: chains of (session, crash) epochs incl. crashes inside the recovering Open; recover-twice equality",
+              "Seeded chains of up to 4 epochs; each epoch's journal includes the recovering Open, so crashes land inside recovery and in sessions that followed a recovery; oracle accumulated over the chain.",
+              "Chains and continuation points are sampled (bias: inside recovery, torn writes). Process-crash model as stated.", "DESIGN.md 4/C04"),
+    "C06": _t("harness", "deterministic simulation with fault injection: power-loss disk model (per-file synced image + ordered pending operations), systematic and seeded prefix families at every instant",
+              "Power-loss images at sampled instants of seeded histories with Sync / sync-after-write, rollover, compaction and earlier crash+recovery epochs; per key the recovered value must be the synced one or a later written one.",
+              "Instants and surviving-prefix vectors are sampled (systematic families always included). Power-loss model as stated in the property (in-order prefixes, durable ordered directory operations).", "DESIGN.md 2.3, 4/C06"),
+    "C09": _t("harness", "deterministic simulation with fault injection: power-loss images at every instant from the return of Close through the next Open",
+              "For seeded histories ending in Close -> Open, every FS call of the following Open (and the instant right after Close) is a power-loss point under the prefix families; recovered contents must equal the closed contents exactly.",
+              "Histories and prefix vectors sampled; instants after Close enumerated. Power-loss model as stated.", "DESIGN.md 4/C09"),
+    "C16": _t("harness", "seeded model-based simulation over size classes with restart; file-system seam observes that a rejected Put touches nothing",
+              "Seeded exploration over boundary key/value lengths (0..65535 keys, values around sector/buffer/segment boundaries, records larger than a segment) with restarts, plus over-limit probes checked for atomic rejection at the FS seam.",
+              "Input-space sampling at boundary classes; the limit-enforcement clause is a pure function of the input (DESIGN.md section 5). A full 512 MiB value only in the thorough tier.", "DESIGN.md 4/C16, 5"),
+}
+
+NOT_APPLICABLE = []
